@@ -9,9 +9,12 @@
      cfgarg  : VL [VN 0; tree] | VL [VN 1; VB s] | VL [VN 2; VB s; VN ok] | VL [VN 3] | VL [VN 4; VN code]
      isrc    : VL [VN 0; dsarg] | VL [VN 1; tree] | VL [VN 2; VN code]
      cmdarg  : VL [VN 0; VB name; VN lx] | VL [VN 1; tree]
-     call    : VL [VN tag; fields...] in constructor order of Builders.opcall (tags 0..18) *)
+     call    : VL [VN tag; fields...] in constructor order of Builders.opcall (tags 0..18)
+   run (VL [VN 8; scope; dtree]) -> VL [decls...]   own declarations of every element of (NsScope.place scope dtree), document order
+     binding : VL [VB prefix; VB uri]    scope, decls : VL [binding...] (innermost first)    dtree : VL [decls; VL [dtree...]] *)
 From NC Require Import Model.Base Model.Xml Model.Escape Model.Gating Model.Builders Glue.C09_glue.
 From NC Require Import Model.VendorBuilders.
+From NC Require Import Model.NsScope.
 From Coq Require Import ZArith.
 
 Definition d_attr (v : val) : qname * bytes :=
@@ -220,6 +223,15 @@ Definition e_vres (r : vres) : val :=
   | VNothing => VL [VN 2]
   end.
 
+Definition d_binding (v : val) : binding := match v with VL [VB p; VB u] => (p, u) | _ => ([], []) end.
+Definition d_bindings (v : val) : list binding := match v with VL l => map d_binding l | _ => [] end.
+Fixpoint d_dtree (v : val) : dtree :=
+  match v with
+  | VL [d; VL kids] => DNode (d_bindings d) (map d_dtree kids)
+  | _ => DNode [] []
+  end.
+Definition e_bindings (d : list binding) : val := VL (map (fun b => VL [VB (fst b); VB (snd b)]) d).
+
 Definition run (v : val) : val :=
   match v with
   | VL [VN 1; p; VB mid; c] =>
@@ -242,5 +254,6 @@ Definition run (v : val) : val :=
       | Some c' => e_vres (vbuild_under (if N.eqb m 0 then Prefixed else DefaultNs) mid c')
       | None => verr 1
       end
+  | VL [VN 8; sc; t] => VL (map e_bindings (decls_preorder (place (d_bindings sc) (d_dtree t))))
   | _ => verr 1
   end.
